@@ -610,6 +610,105 @@ def extract_print_ranges():
     return lo, hi, above
 
 
+# ----------------------------------------------------------------------------- command line
+
+def struct_fields_with_attrs(toks, struct_name, what):
+    """[(field name, type text, [attribute token lists])] of `struct struct_name { .. }`"""
+    i = find_seq(toks, ["struct", struct_name, "{"])
+    if i < 0:
+        raise ExtractError(f"{what}: struct {struct_name} not found")
+    end = matching_paren(toks, i + 2)
+    out, attrs = [], []
+    k = i + 3
+    while k < end:
+        if toks[k][1] == "#" and toks[k + 1][1] == "[":
+            close = matching_paren(toks, k + 1)
+            attrs.append(toks[k + 2:close])
+            k = close + 1
+            continue
+        if toks[k][1] == "pub":
+            k += 1
+            continue
+        if toks[k][0] == "id" and toks[k + 1][1] == ":":
+            name = toks[k][1]
+            j = k + 2
+            depth = 0
+            ty = []
+            while j < end:
+                t = toks[j][1]
+                if toks[j][0] == "sym" and t == "<":
+                    depth += 1
+                elif toks[j][0] == "sym" and t == ">":
+                    depth -= 1
+                elif toks[j][0] == "sym" and t == "," and depth == 0:
+                    break
+                ty.append(t)
+                j += 1
+            out.append((name, "".join(ty), attrs))
+            attrs = []
+            k = j + 1
+            continue
+        k += 1
+    return out
+
+
+def enum_variants_kebab(toks, enum_name, what):
+    i = find_seq(toks, ["enum", enum_name, "{"])
+    if i < 0:
+        raise ExtractError(f"{what}: enum {enum_name} not found")
+    end = matching_paren(toks, i + 2)
+    out = []
+    k = i + 3
+    while k < end:
+        if toks[k][1] == "#" and toks[k + 1][1] == "[":
+            k = matching_paren(toks, k + 1) + 1
+            continue
+        if toks[k][0] == "id" and toks[k][1][0].isupper():
+            v = toks[k][1]
+            out.append(re.sub(r"(?<!^)([A-Z])", r"-\1", v).lower())
+        k += 1
+    return out
+
+
+def extract_cli_options():
+    """the options of the command line: (long name + visible aliases, kind) in declaration order"""
+    opts = []
+    for file, structs in (("lib.rs", ["Cli"]), ("output_style.rs", ["OutputOptions", "JsonOutputOptions", "TextOutputOptions"])):
+        toks = tokenize(open(os.path.join(REPO, "src", file)).read())
+        for st in structs:
+            for name, ty, attrs in struct_fields_with_attrs(toks, st, file):
+                arg = [a for a in attrs if a and a[0][1] == "arg"]
+                if not arg:
+                    continue
+                a = arg[0]
+                texts = [t for _, t in a]
+                if "long" not in texts:
+                    raise ExtractError(f"{file}: option {name} has no long name")
+                names = [name.replace("_", "-")]
+                for q in range(len(a) - 2):
+                    if a[q][1] in ("visible_alias", "alias") and a[q + 1][1] == "=" and a[q + 2][0] == "str":
+                        names.append(a[q + 2][1])
+                    if a[q][1] == "long" and a[q + 1][1] == "=" and a[q + 2][0] == "str":
+                        names[0] = a[q + 2][1]
+                if ty == "bool":
+                    kind = 0
+                elif ty.startswith("Vec<"):
+                    kind = 2
+                elif ty.startswith("Option<Option<"):
+                    kind = 3
+                else:
+                    kind = 1
+                opts.append((names, kind, ty))
+    if len(opts) < 20:
+        raise ExtractError("command line: fewer than 20 options found")
+    toks = tokenize(open(os.path.join(REPO, "src", "lib.rs")).read())
+    toks2 = tokenize(open(os.path.join(REPO, "src", "output_style.rs")).read())
+    enums = {"on_error": enum_variants_kebab(toks, "OnError", "lib.rs"),
+             "output_style": enum_variants_kebab(toks2, "OutputStyle", "output_style.rs"),
+             "json_style": enum_variants_kebab(toks2, "JsonStyle", "output_style.rs")}
+    return opts, enums
+
+
 # ----------------------------------------------------------------------------- emit Lean
 
 def lean_str(s):
@@ -656,6 +755,7 @@ def main():
         parse_arms = extract_parser_escapes()
         cli = extract_cli_defaults()
         bc = extract_byte_classes()
+        cli_opts, cli_enums = extract_cli_options()
         plain_lo, plain_hi, utf8_above = extract_print_ranges()
     except ExtractError as e:
         print("EXTRACT-ERROR: " + str(e))
@@ -744,6 +844,20 @@ def main():
     os.makedirs(os.path.dirname(syn_path), exist_ok=True)
     open(syn_path, "w").write(json.dumps(bc, indent=1))
     ch5 = False
+    # command line options
+    def clist(names):
+        return "[" + ", ".join(codes(n) for n in names) + "]"
+    lines = [hdr, "namespace Jawk.Generated\n",
+             "/-- (long name and visible aliases as code points, kind: 0 flag, 1 one value, 2 repeatable, 3 optional value), in declaration order -/",
+             "def cliOptions : List (List (List Nat) × Nat) := [",
+             ",\n".join(f"  ({clist(names)}, {kind})" for names, kind, _ in cli_opts),
+             "]\n",
+             "/-- the accepted values of the enumerated options (kebab case) -/",
+             f"def onErrorValues : List (List Nat) := {clist(cli_enums['on_error'])}",
+             f"def outputStyleValues : List (List Nat) := {clist(cli_enums['output_style'])}",
+             f"def jsonStyleValues : List (List Nat) := {clist(cli_enums['json_style'])}\n",
+             "end Jawk.Generated\n"]
+    ch6 = write_if_changed(os.path.join(OUT, "CliOptions.lean"), "\n".join(lines))
     # the same table for the Rust harness (generator of aliases / arities)
     def rust_str(x):
         return '"' + x.replace('\\', '\\\\').replace('"', '\\"') + '"'
@@ -758,7 +872,7 @@ def main():
     unrec = sorted(k for k, v in bc.items() if isinstance(v, dict))
     summary = {"byte_classes_unrecognised": unrec, "functions": len(funcs), "names": len(allnames),
                "examples": sum(len(f["examples"]) for f in funcs), "examples_skipped": skipped,
-               "changed": [n for n, c in (("FunctionTable", ch1), ("DocExamples", ch2), ("Presets", ch3), ("harness/gen_table.rs", ch4)) if c]}
+               "changed": [n for n, c in (("FunctionTable", ch1), ("DocExamples", ch2), ("Presets", ch3), ("harness/gen_table.rs", ch4), ("CliOptions", ch6)) if c]}
     print("EXTRACT-OK " + json.dumps(summary))
 
 
